@@ -764,9 +764,21 @@ def _check_layout_labels(run, world, lay, width, where):
     PseudoGene = _m["rmodel"].PseudoGene
     by_clade = {v.clade: v for v in world.otree.nodes()}
     oidx = None
+    lineage = _lineage_of_losses(world, lay) if world.colors else {}
     for sl in lay.values():
         for g, b in sl.branches.items():
             if isinstance(g, PseudoGene):
+                # a loss on a branch whose two ends have the same colour lies inside that
+                # coloured (or uncoloured) subtree
+                want = _loss_colour(world, lineage[g]) if g in lineage else None
+                if want is not None:
+                    run.probe("loss_colour_checked")
+                    run.check(b.color == want, ("C15",), "C15.colour-scope-loss",
+                              lambda: f"{where}: a loss on the branch down to "
+                                      f"{world.name_of(lineage[g])} has colour {b.color} although "
+                                      f"both ends of that branch have colour {want}; colours "
+                                      f"{ {world.name_of(k): c for k, c in world.colors.items()} } "
+                                      f"on {world.document()['input']['object_tree']}")
                 continue
             if oidx is None:
                 oidx = canon.ete_clade_index(g.get_tree_root())
@@ -777,6 +789,39 @@ def _check_layout_labels(run, world, lay, width, where):
                               f"coloured ancestor-or-self says {world.expected_color(v)}; colours "
                               f"{ {world.name_of(k): c for k, c in world.colors.items()} } on "
                               f"{world.document()['input']['object_tree']}")
+
+
+def _lineage_of_losses(world, lay):
+    """pseudo gene -> reference node of the child lineage its loss chain leads down to."""
+    PseudoGene = _m["rmodel"].PseudoGene
+    branch_of = {g: b for sl in lay.values() for g, b in sl.branches.items()}
+    by_clade = {v.clade: v for v in world.otree.nodes()}
+    oidx = None
+    out = {}
+    for g in branch_of:
+        if not isinstance(g, PseudoGene):
+            continue
+        cur = g
+        for _ in range(len(branch_of) + 1):
+            if not isinstance(cur, PseudoGene):
+                break
+            b = branch_of.get(cur)
+            cur = None if b is None else (b.left if b.left is not None else b.right)
+        if cur is None or isinstance(cur, PseudoGene):
+            continue
+        if oidx is None:
+            oidx = canon.ete_clade_index(cur.get_tree_root())
+        out[g] = by_clade[oidx[cur]]
+    return out
+
+
+def _loss_colour(world, child):
+    """Colour a loss on the branch leading down to `child` must have, or None when the
+    statement leaves it open (the branch joins two differently coloured nodes)."""
+    if child.parent is None:
+        return None
+    low, high = world.expected_color(child), world.expected_color(child.parent)
+    return low if low == high else None
 
 
 def _check_label(run, world, v, label, width, where):
@@ -887,6 +932,7 @@ def _check_tikz(run, world, lay, code, width, where, orient, diameter):
     # every loss marker is drawn in the species where the loss occurs, on the side of the child
     # lineage in which the object is lost (not on the side that keeps it)
     loss_nodes = [n for n in doc["nodes"] if n["style"] == "loss"]
+    lineage = _lineage_of_losses(world, lay)
     for sp, sl in lay.items():
         for g, b in sl.branches.items():
             if not isinstance(g, PseudoGene) or sp.is_leaf():
@@ -908,6 +954,14 @@ def _check_tikz(run, world, lay, code, width, where, orient, diameter):
             if hit is None:
                 continue
             loss_nodes.remove(hit[0])
+            child = lineage.get(g)
+            want = _loss_colour(world, child) if child is not None else None
+            if want is not None and world.colors:
+                html = doc["colors"].get(hit[0]["color"])
+                run.check(html == want, ("C15",), "C15.colour-scope-loss",
+                          lambda: f"{where}: the loss marker in species {sidx[sp]} on the branch "
+                                  f"down to {world.name_of(child)} is drawn with "
+                                  f"{hit[0]['color']}={html}, both ends of that branch have {want}")
 
             def start(species):
                 rr = lay[species].rect
@@ -980,6 +1034,7 @@ def describe(pid):
             "C14": ["mirror_compared", "computed_twice", "fresh_parse", "transfer", "losses",
                     "peer_chatter", "params_changed_within_history"],
             "C15": ["coloured", "nested_colour", "labelled", "wrapped_label", "fresh_parse",
+                    "loss_colour_checked",
                     "params_changed_within_history"],
         }[pid],
     }
